@@ -124,9 +124,32 @@ def make_graph(S, g, names, floats=False, as_string=False):
     return S.graph(cols, field_names=field_names(g, names, as_string), scale=num(fr(g["scale"]), floats))
 
 
-def do_scale(obj, s, variant, S, F):
-    """Rescale through one of the public routes that end in structure.scale(number)."""
-    v = variant % 5
+def _is_ref(val):
+    return isinstance(val, tuple) and isinstance(val[1], dict) and val[1].get("ref") is True
+
+
+def do_scale(obj, s, variant, S, F, allow=False):
+    """Rescale through one of the public routes that end in structure.scale(number).
+    allow: only the group routes, with allow_zero_scale = allow_unknown_scale = True."""
+    if allow:
+        if variant % 2:
+            F.scale_to(s, [obj], allow_zero_scale=True, allow_unknown_scale=True)
+        else:
+            F.GroupScale(s, allow_zero_scale=True, allow_unknown_scale=True)([(obj, {"variant": "allow"})])
+        return
+    v = variant % 7
+    if v in (5, 6):
+        # "Otherwise it is converted to a Selector, which must return a unique item from the group.
+        # Group items will be scaled to the scale of that item."
+        ref = S.graph([[0, 1], [1, 2]], scale=s)
+        group = [(obj, {"variant": v}), (ref, {"ref": True})]
+        if v == 5:
+            F.scale_to(_is_ref, group)
+        else:
+            F.GroupScale(_is_ref)(group)
+        if ref.coords != [[0, 1], [1, 2]] or ref.scale() != s:
+            raise AssertionError("the item that provides the scale was changed: %r" % (ref,))
+        return
     if v == 0:
         obj.scale(s)
     elif v == 1:
@@ -233,6 +256,30 @@ def replay_addtol(S, start, op, k, report, extra, mags):
                 d2[raised] = d2.get(raised, 0) + 1
 
 
+def _try(call):
+    try:
+        return True, call()
+    except Exception as exc:   # noqa
+        return False, exc_name(exc)
+
+
+def snapshot_hist(h):
+    return copy.deepcopy((h.bins, h.n_out_of_range, h.edges))
+
+
+def _lists(b, acc):
+    if isinstance(b, list):
+        acc.add(id(b))
+        for x in b:
+            _lists(x, acc)
+    return acc
+
+
+def shares(b1, b2):
+    """two nested lists have a list object in common"""
+    return bool(_lists(b1, set()) & _lists(b2, set()))
+
+
 def flat_rats(b, depth):
     if depth == 0:
         return [b]
@@ -273,6 +320,7 @@ def replay_histops(ctx, rec, k, report, extra):
         return all(p[1] & (p[1] - 1) == 0 for p in flat_rats(h["bins"], dim))
     # exact_vals: every content so far is a dyadic number, i.e. the floats of the code are the rationals of the model
     exact_vals = all_dyadic(rec["start"])
+    held = []
     for j, op in enumerate(rec["ops"]):
         name = op["op"]
         want = op["a"]
@@ -287,8 +335,11 @@ def replay_histops(ctx, rec, k, report, extra):
                                dict(detail, observed=repr(got)))
                 elif name == "scale":
                     raised = None
+                    allow = op.get("kind") == "allow"
+                    if allow and not exact_vals:
+                        return            # an exact zero of the model, contents with rounding errors: undecidable
                     try:
-                        do_scale(hist, sval(op["s"], floats and (k % 2 == 0)), k + j, S, F)
+                        do_scale(hist, sval(op["s"], floats and (k % 2 == 0)), k + j, S, F, allow)
                     except Exception as exc:   # noqa
                         raised = exc_name(exc)
                     if op["ok"] and raised:
@@ -302,6 +353,24 @@ def replay_histops(ctx, rec, k, report, extra):
                         report("histogram.scale:zero-scale:%s:%s" % (where, raised or "no-exception"), detail)
                         if raised is None:
                             return
+                elif name == "set_nevents" and not op["ok"]:
+                    # "Rescaling a histogram with zero entries raises a LenaValueError"
+                    if not exact_vals:
+                        return
+                    ok, val = _try(lambda: hist.set_nevents(cval(op["s"]), include_out_of_range=op["incl"]))
+                    if ok or val != op["exc"]:
+                        report("histogram.set_nevents:zero-events:%s:%s" % (where, "no-exception" if ok else val), detail)
+                        if ok:
+                            return
+                elif name == "to_graph_scale":
+                    mode = op["kind"]
+                    arg = True if mode == "true" else (None if mode == "none" else sval(op["val"]))
+                    fn = ("x", "y", "z", "t")[:dim + 1]
+                    gr = S.hist_to_graph(hist, scale=arg, field_names=fn if (k + j) % 2 else ", ".join(fn))
+                    wantv = exp(op["val"], I)
+                    if not isinstance(gr, S.graph) or not close(gr.scale(), wantv, I) \
+                            or not close_nested(list(gr.coords[dim]), [exp(p, C) for p in flat_rats(want["bins"], dim)], 1, C):
+                        report("hist_to_graph:scale=%s:%s" % (mode, where), dict(detail, observed=repr(gr)))
                 elif name == "set_nevents":
                     nev = cval(op["s"], floats and (k % 2 == 0))
                     if op["incl"] or (k + j) % 2:
@@ -338,8 +407,13 @@ def replay_histops(ctx, rec, k, report, extra):
                         if not ok:
                             report("histogram.add:result:%s:%s:w=%d" % (where, op["kind"], op["w"]),
                                    dict(detail, observed=repr(res), oor=repr(getattr(res, "n_out_of_range", None))))
+                        elif shares(res.bins, hist.bins) or shares(res.bins, other.bins) \
+                                or (isinstance(res.edges, list) and res.edges is hist.edges):
+                            report("histogram.add:result-shares-lists-with-operand:%s" % where, detail)
                         elif op.get("into"):
-                            hist = res            # go on with the sum: a new histogram
+                            # go on with the sum (a new histogram); the operands are kept and must stay as they are
+                            held = [(hist, snapshot_hist(hist)), (other, snapshot_hist(other))]
+                            hist = res
                     else:
                         if raised is None:
                             report("histogram.add:different-edges-accepted:%s:%s" % (where, op["kind"]),
@@ -354,6 +428,10 @@ def replay_histops(ctx, rec, k, report, extra):
             report("histogram.%s:%s:raised:%s" % (name, where, exc_name(exc)), dict(detail, exception=repr(exc)))
             return
         exact_vals = exact_vals and all_dyadic(want)
+        for obj, snap in held:
+            if snapshot_hist(obj) != snap:
+                report("histogram.%s:changes-an-operand-of-the-earlier-add:%s" % (name, where), detail)
+                return
         # the histogram after the operation
         if hist.edges != edges0:
             report("histogram.%s:edges-changed:%s" % (name, where), dict(detail, observed=repr(hist.edges)))
@@ -375,7 +453,7 @@ def replay_histops(ctx, rec, k, report, extra):
         else:
             extra["stored_scale_not_observable"] = True
     last = rec["ops"][-1]
-    if last["op"] == "scale" and last["ok"] and last["fresh"]:
+    if last["op"] == "scale" and last["ok"] and last["exc"] == "" and last["fresh"]:
         # "makes the recomputed scale equal s"
         got = hist.scale(recompute=True)
         got2 = hist.scale()
@@ -409,7 +487,7 @@ def replay_graph(ctx, rec, k, report):
                 else:
                     raised = None
                     try:
-                        do_scale(g, num(fr(op["s"]), floats), k + j, S, F)
+                        do_scale(g, num(fr(op["s"]), floats), k + j, S, F, op.get("exc") == "skipped")
                     except Exception as exc:   # noqa
                         raised = exc_name(exc)
                     if op["ok"] and raised:
@@ -432,7 +510,7 @@ def replay_graph(ctx, rec, k, report):
         for c in range(len(want["cols"])):
             col = g.coords[c]
             wcol = [fr(p) for p in want["cols"][c]]
-            if (c + 1) not in scaled or not op["ok"] or op["op"] == "getscale":
+            if (c + 1) not in scaled or not op["ok"] or op["exc"] == "skipped" or op["op"] == "getscale":
                 if list(col) != list(before[c]):
                     kind = "coordinate" if c < want["dim"] else "error-of-other-coordinate"
                     if (c + 1) in scaled:
@@ -516,7 +594,7 @@ def _replay_convert(ctx, rec, k, report, tuples):
     where = "dim=%d%s" % (dim, ":tuple-edges" if tuples else "")
     if em or cm:
         where += ":edges-%s:contents-%s" % (mag_class(em), mag_class(cm))
-    detail = {"hist": h, "conv": dict((x, conv[x]) for x in ("op", "mode", "dup", "ranges")), "floats": floats,
+    detail = {"hist": h, "conv": dict((x, conv.get(x)) for x in ("op", "mode", "dup", "ranges", "names", "both", "elem")), "floats": floats,
               "tuple_edges": tuples, "magnitude_exponents": [em, cm]}
     if em or cm:
         # the expected output at this magnitude: coordinates * E, contents * C
@@ -528,14 +606,25 @@ def _replay_convert(ctx, rec, k, report, tuples):
         with watchdog(LIMIT):
             if op == "to_graph":
                 fn = ("x", "y", "z", "t")[:dim + 1]
-                if k % 2:
-                    g = S.hist_to_graph(hist, get_coordinate=conv["mode"], field_names=fn)
+                if conv.get("names") == "string":
+                    fn = ", ".join(fn) if k % 2 else " ".join(fn)
+                if not conv["ok"]:
+                    # "Incorrect values for ... get_coordinate raise ... LenaValueError"
+                    for what, call in (("hist_to_graph", lambda: S.hist_to_graph(hist, get_coordinate=conv["mode"], field_names=fn)),
+                                       ("HistToGraph", lambda: S.HistToGraph(get_coordinate=conv["mode"], field_names=fn))):
+                        ok, val = _try(call)
+                        if ok or val != conv["exc"]:
+                            report("%s:bad-get_coordinate:%s" % (what, "no-exception" if ok else val), dict(detail, observed=repr(val)))
                 else:
-                    out = list(S.HistToGraph(get_coordinate=conv["mode"], field_names=fn).run([hist]))
-                    g = out[0][0] if len(out) == 1 and isinstance(out[0], tuple) else None
-                cols = getattr(g, "coords", None)
-                if not isinstance(g, S.graph) or [list(c) for c in cols] != conv["cols"]:
-                    report("hist_to_graph:%s:%s" % (conv["mode"], where), dict(detail, observed=repr(g)))
+                    if k % 2:
+                        g = S.hist_to_graph(hist, get_coordinate=conv["mode"], field_names=fn)
+                    else:
+                        out = list(S.HistToGraph(get_coordinate=conv["mode"], field_names=fn).run([hist]))
+                        g = out[0][0] if len(out) == 1 and isinstance(out[0], tuple) else None
+                    cols = getattr(g, "coords", None)
+                    if not isinstance(g, S.graph) or [list(c) for c in cols] != conv["cols"] \
+                            or g.field_names != ("x", "y", "z", "t")[:dim + 1]:
+                        report("hist_to_graph:%s:%s" % (conv["mode"], where), dict(detail, observed=repr(g)))
             elif op == "iter_bins":
                 got = [[list(i), v] for i, v in S.iter_bins(hist.bins)]
                 want = [[c["idx"], c["v"]] for c in conv["cells"]]
@@ -552,7 +641,11 @@ def _replay_convert(ctx, rec, k, report, tuples):
                 raised = None
                 got = None
                 try:
-                    it = S.iter_cells(hist) if (allnone and k % 2) else S.iter_cells(hist, ranges=rng)
+                    if conv.get("both"):
+                        lo, hi = (hist.edges[0], hist.edges[-1]) if dim == 1 else (hist.edges[0][0], hist.edges[0][-1])
+                        it = S.iter_cells(hist, ranges=rng, coord_ranges=((lo, hi),) * dim)
+                    else:
+                        it = S.iter_cells(hist) if (allnone and k % 2) else S.iter_cells(hist, ranges=rng)
                     got = [[norm_edges(c.edges), c.bin, list(c.index)] for c in it]
                 except Exception as exc:   # noqa
                     raised = exc_name(exc)
@@ -563,12 +656,33 @@ def _replay_convert(ctx, rec, k, report, tuples):
                 elif raised != conv["exc"]:
                     report("iter_cells:bad-range:%s:%s" % (where, raised or "no-exception"), detail)
             elif op == "csv":
+                elem = conv.get("elem", "plain")
                 sep = [",", ";", " "][k % 3]
                 header = None if k % 5 else "a header"
-                lines = csv_lines(O, hist, conv["dup"], k, sep, header)
-                rows = parse_csv(lines, sep)
-                if not rows_close(rows, conv["rows"]):
-                    report("to_csv:%s:dup=%s" % (where, conv["dup"]), dict(detail, observed=lines[:40]))
+                if elem in ("skip", "3d"):
+                    # "If context.output.to_csv is False, the value is skipped"; more than 2 dimensions: not converted
+                    val = (hist, {"output": {"to_csv": False}}) if elem == "skip" else (hist if k % 2 else (hist, {"some": 1}))
+                    with warnings.catch_warnings():
+                        warnings.simplefilter("ignore")
+                        out = list(O.ToCSV(separator=sep, duplicate_last_bin=conv["dup"]).run([val]))
+                    if len(out) != 1 or out[0] is not val:
+                        report("to_csv:%s:not-passed-unchanged:%s" % (elem, where), dict(detail, observed=repr(out)[:300]))
+                elif elem == "ends":
+                    re_, lre = " \\\\", " %end"
+                    out = list(O.ToCSV(separator=sep, row_end=re_, last_row_end=lre, duplicate_last_bin=conv["dup"]).run([hist]))
+                    text = out[0][0] if len(out) == 1 and isinstance(out[0], tuple) else ""
+                    lines = text.split("\n")
+                    ends_ok = len(lines) == len(conv["ends"]) and all(
+                        line.endswith(re_ if e == "E" else lre) and not line[:-len(re_ if e == "E" else lre)].endswith((re_, lre))
+                        for line, e in zip(lines, conv["ends"]))
+                    stripped = [line[:-len(re_ if e == "E" else lre)] for line, e in zip(lines, conv["ends"])] if ends_ok else []
+                    if not ends_ok or not rows_close(parse_csv(stripped, sep), conv["rows"]):
+                        report("to_csv:row_end:%s:dup=%s" % (where, conv["dup"]), dict(detail, observed=lines[:40]))
+                else:
+                    lines = csv_lines(O, hist, conv["dup"], k, sep, header)
+                    rows = parse_csv(lines, sep)
+                    if not rows_close(rows, conv["rows"]):
+                        report("to_csv:%s:dup=%s" % (where, conv["dup"]), dict(detail, observed=lines[:40]))
     except Exception as exc:   # noqa
         report("%s:%s:raised:%s" % ("hist_to_graph" if op == "to_graph" else op, where, exc_name(exc)),
                dict(detail, exception=repr(exc)))
